@@ -1320,9 +1320,13 @@ def oracle_document(ctx: Ctx, fmt: str, doc, ser, full: str, src: str, r) -> Non
     fallback = find_all(root, lambda n: n.tag == "p" and n.cls() == "pre")
     bad = [l for l in r["reports"] if "bad docstring" in l]
     if fallback:      # (a non-fatal "bad docstring" warning alone, e.g. docutils' INFO about two equal section titles, loses nothing)
-        why = (bad[0].split("bad docstring:")[-1].strip()[:60] if bad else "?")
+        # several reports may say "bad docstring"; non-fatal ones (docutils' INFO about equal section titles) are not the cause
+        fatal = [l for l in bad if "undefined entity" in l] or [l for l in bad if "Duplicate implicit target name" not in l] or bad
+        why = (fatal[0].split("bad docstring:")[-1].strip()[:60] if fatal else "?")
         code_spaces = re.search(r"C\{[^{}]*  [^{}]*\}|``[^`]*  [^`]*``|\u00a0", ser["docstring"])
-        if "undefined entity" in why and code_spaces:
+        # (reportErrors reports an object once: after a non-fatal parse warning the to_stan failure itself is not printed)
+        only_info = all("Duplicate implicit target name" in l for l in bad)
+        if code_spaces and ("undefined entity" in why or only_info):
             sig = "html2stan:nbsp-entity:docstring-falls-back-to-plaintext"
         else:
             sig = "wellformed-docstring-rejected:" + fmt + ":" + re.sub(r"[^A-Za-z ]", "", why.split("\n")[0])[:40].strip().replace(" ", "-")
